@@ -8,6 +8,7 @@ BASE_ASSUMPTIONS = [
     "rustc type/borrow checking and monomorphisation; Verus 0.2026.09.13 + Z3; Kani 0.68 + CBMC 6.11 + CaDiCaL",
     "64-bit target only (Verus: `global size_of usize == 8`; Kani: x86_64)",
     "core::alloc::Layout invariant (align power of two, size+align-1 <= isize::MAX) is assumed for every Layout value (Verus: assume_specification on Layout::size/align; Kani: Layout::from_size_align is Ok)",
+    "src/chunk/size.rs (Verus): trait BumpAllocatorSettings reduced to its consts UP / MINIMUM_CHUNK_SIZE, ChunkHeader<A> opaque; trusted: assume_specification for Layout::new::<T> (layout of T) and Layout::from_size_align, axioms header_layout_axiom (align_of ChunkHeader<A> power of two >= 16, size >= 32 and a multiple of the alignment) and overhead_layout_axiom ([usize;2] is (16,8)) - the same facts Kani checks per instantiation (C10 obligations on config::<A,S>()); vstd's specification of core::mem::align_of",
     "machine arithmetic is never treated as mathematical: Verus checks every exec + - * against usize bounds, wrapping/saturating/checked ops have vstd's machine semantics; Kani is bit-precise",
 ]
 
